@@ -37,14 +37,14 @@ def classify(run, case, impl, model):
     i, m = _parse(impl), _parse(model)
     diff = [k for k in ("status", "E", "R", "H", "M") if i[k] != m[k]]
     return "%s/impl=%s/model=%s/diff=%s%s" % (case.split()[0], i["status"].split("@")[0], m["status"].split("@")[0],
-                                              "+".join(diff), "/misuse" if m["misuse"] else "")
+                                              "+".join(diff), "/misuse" if "unexpected-misuse" in model else "")
 
 
 def violates(run, case, impl, model):
     """Does the implementation's observed behaviour break the property (not merely differ)?"""
     i, m = _parse(impl), _parse(model)
-    if m["misuse"]:
-        return False
+    if case.split()[0] == "mis" or "unexpected-misuse" in model:
+        return False   # the generator broke the caller contract on purpose (model faithfulness only)
     if i["status"] in ("hang", "stuck") or i["status"].startswith("harness-panic"):
         return True
     shut = set()
